@@ -522,6 +522,8 @@ public:
   /**
    * @brief The Gamma quantile function.
    *
+   * returns -1 if in error (see qChisq).
+   *
    * @param prob The probability.
    * @param alpha Alpha parameter.
    * @param beta  Beta parameter.
@@ -529,7 +531,10 @@ public:
    */
   static double qGamma(double prob, double alpha, double beta)
   {
-    return qChisq(prob, 2.0 * (alpha)) / (2.0 * (beta));
+    double ch = qChisq(prob, 2.0 * (alpha));
+    if (ch < 0)
+      return ch; // error value of qChisq: not a quantile, must not be rescaled
+    return ch / (2.0 * (beta));
   }
 
   /**
